@@ -21,6 +21,7 @@ import (
 	"istio.io/istio/pilot/pkg/serviceregistry/provider"
 	"istio.io/istio/pkg/cluster"
 	"istio.io/istio/pkg/config/schema/kind"
+	"istio.io/istio/pkg/simhook"
 	"istio.io/istio/pkg/util/sets"
 )
 
@@ -327,6 +328,7 @@ func (e *EndpointIndex) UpdateServiceEndpoints(
 		pushType = FullPush
 	}
 
+	simhook.Yield("epindex.update.afterLookup", string(shard.Provider), string(shard.Cluster), namespace, hostname)
 	ep.Lock()
 	defer ep.Unlock()
 	oldIstioEndpoints := ep.Shards[shard]
